@@ -43,6 +43,13 @@ Theorem impl_note_name : forall s a o,
 Proof. exact impl_note_name_lemma. Qed.
 Print Assumptions impl_note_name.
 
+Theorem impl_note_name_accidental_spellings :
+  all_rows tab_name_alt (fun k v => let '(s, a, o) := k in
+     ps_res_eqb (fst v) (s, a, o) && zopt_eqb (snd v) (ps_to_midi s a o)) = true
+  /\ List.length tab_name_alt = 336%nat.
+Proof. exact tab_name_alt_ok. Qed.
+Print Assumptions impl_note_name_accidental_spellings.
+
 (* O2 keys: bijection on 15 + 15 names; everything else rejected *)
 Theorem key_roundtrip : forall f m, -7 <= f <= 7 ->
   exists n, key_name f m = Some n /\ key_parse n = Some (f, m).
@@ -115,6 +122,12 @@ Theorem impl_freq_roundtrip : forall m a4, 0 <= m <= 127 -> In a4 [440; 415; 442
 Proof. exact impl_freq_lemma. Qed.
 Print Assumptions impl_freq_roundtrip.
 
+(* a frequency detuned by +-0.4 semitone still maps to the nearest MIDI pitch *)
+Theorem impl_freq_nearest :
+  all_rows tab_freq_off (fun k v => zopt_eqb v (Some (fst k))) = true /\ List.length tab_freq_off = 256%nat.
+Proof. exact tab_freq_off_ok. Qed.
+Print Assumptions impl_freq_nearest.
+
 (* O6 mode and clef codes decode to what was encoded *)
 Theorem mode_codes :
   all_rows tab_mode_int (fun mi r => zopt_eqb r (option_map mode_int (mode_of_spelling mi))) = true /\
@@ -139,3 +152,18 @@ Theorem clef_codes :
          (fun _ r => match r with Some _ => true | None => false end) = true.
 Proof. exact tab_clef_codes_ok. Qed.
 Print Assumptions clef_codes.
+
+(* O5 over the reals (depends on the standard library's real-number axioms) *)
+From PV Require Import Proofs.C12_real.
+From Coq Require Import Reals.
+Theorem freq_midi_inverse : forall a4 m : R, (0 < a4)%R -> midi_of_freq a4 (freq_of_midi a4 m) = m.
+Proof. exact freq_midi_inverse_lemma. Qed.
+Print Assumptions freq_midi_inverse.
+
+Theorem freq_octave_doubles : forall a4 m : R, freq_of_midi a4 (m + 12) = (2 * freq_of_midi a4 m)%R.
+Proof. exact freq_octave_lemma. Qed.
+Print Assumptions freq_octave_doubles.
+
+Theorem freq_a4 : forall a4 : R, freq_of_midi a4 69 = a4.
+Proof. exact freq_a4_lemma. Qed.
+Print Assumptions freq_a4.
